@@ -33,11 +33,11 @@ type fakeRelay struct {
 	seen  []relaySeen
 	// fault decides what happens to the n-th message sent to a stream:
 	// "deliver", "drop", "senderr" (Send fails, message lost), "recverr" (the reader's Recv fails once)
-	fault   func(stream string, n int) string
-	counts  map[string]int
-	recvErr map[string]int // pending injected receive errors per stream
-	newBox  int
-	streams int
+	fault     func(stream string, n int) string
+	counts    map[string]int
+	recvErr   map[string]int // pending injected receive errors per stream
+	newBox    int
+	streams   int
 	failClose bool // closing a stream reports an error (the stream is closed all the same)
 }
 
@@ -200,4 +200,6 @@ func (r *fakeRelay) streamIDs() []string {
 
 var _ hashmailrpc.HashMailClient = (*fakeRelay)(nil)
 
-func (r *fakeRelay) String() string { return fmt.Sprintf("relay(%d boxes, %d messages)", len(r.boxes), len(r.seen)) }
+func (r *fakeRelay) String() string {
+	return fmt.Sprintf("relay(%d boxes, %d messages)", len(r.boxes), len(r.seen))
+}
